@@ -4,6 +4,7 @@ import (
 	"fmt"
 	"runtime"
 	"strings"
+	"syscall"
 )
 
 // Call describes the shim call a task is parked at (it has not executed yet).
@@ -28,6 +29,7 @@ type Event struct {
 	N      int    `json:"n,omitempty"`
 	Caller string `json:"fn,omitempty"`
 	Mut    bool   `json:"-"`
+	Inj    bool   `json:"inj,omitempty"` // failed by fault injection
 }
 
 func (e *Event) String() string {
@@ -37,6 +39,9 @@ func (e *Event) String() string {
 	}
 	if e.Err != "" {
 		s += " [" + e.Err + "]"
+	}
+	if e.Inj {
+		s += " INJECTED"
 	}
 	if e.Caller != "" {
 		s += " @" + e.Caller
@@ -49,6 +54,12 @@ const (
 	FaultCrash     = "crash"      // kill the task immediately before its Step-th call
 	FaultClockJump = "clock-jump" // advance the clock by Arg ns at the task's Step-th call
 	FaultSlow      = "slow"       // from Step on, for Arg2 calls, latency multiplied by Arg
+	// FaultIOErr makes the task's Step-th call fail with an I/O error:
+	// Arg selects the errno among those the call kind can meet (see
+	// InjectIO); for write calls Arg2 (mod the buffer length) bytes
+	// reach the file before the failure (short write). The call has no
+	// other effect, except close, which releases the descriptor anyway.
+	FaultIOErr = "ioerr"
 )
 
 type Fault struct {
@@ -97,6 +108,8 @@ type Task struct {
 	nowCtr         uint64
 	Data           interface{} // harness slot
 	TimeFaultSteps int         // steps of this task executed under a time fault (slow window or clock jump)
+	ioFault        *Fault      // I/O error addressed at the call being executed
+	injected       bool        // the call being executed failed by injection
 }
 
 // FileState tracks an open descriptor for crash handling.
@@ -146,7 +159,9 @@ type Sim struct {
 	// abnormally (slow window or clock jump), by any task: the clock is
 	// global, so every call in flight meanwhile has experienced the delay.
 	TimeFaultEvents int
-	StmtSteps       int // statement-level yields taken
+	// IOFaultEvents counts calls that failed by injection.
+	IOFaultEvents int
+	StmtSteps     int // statement-level yields taken
 	schedNameCtr    uint64
 	CallerPkg       string
 }
@@ -406,7 +421,55 @@ func Enter(c Call) (be Backend, t *Task, ok bool) {
 		s.Counters["fault.clock-jump"]++
 	}
 	s.Now += lat
+	t.ioFault = s.faultAt(t, FaultIOErr)
+	t.injected = false
 	return s.FS, t, true
+}
+
+// errnos a call kind can meet in a real deployment besides the ones that
+// carry meaning for the library's logic (ENOENT, EEXIST are never injected:
+// they would be lies about the directory, not failures).
+var ioErrnos = map[string][]syscall.Errno{
+	"open":     {syscall.EMFILE, syscall.EIO, syscall.EACCES},
+	"create":   {syscall.EMFILE, syscall.ENOSPC, syscall.EIO},
+	"createx":  {syscall.EMFILE, syscall.ENOSPC, syscall.EIO},
+	"tempfile": {syscall.EMFILE, syscall.ENOSPC, syscall.EIO},
+	"rename":   {syscall.EIO, syscall.ENOSPC},
+	"remove":   {syscall.EIO, syscall.EACCES},
+	"stat":     {syscall.EIO},
+	"readfile": {syscall.EIO, syscall.EMFILE},
+	"readdir":  {syscall.EIO, syscall.EMFILE},
+	"write":    {syscall.ENOSPC, syscall.EIO, syscall.EDQUOT},
+	"read":     {syscall.EIO},
+	"readat":   {syscall.EIO},
+	"fstat":    {syscall.EIO},
+	"close":    {syscall.EIO},
+}
+
+// InjectIO is asked by a shim right after Enter: must this call fail by
+// injection? part is the short-write length selector (write calls).
+func InjectIO(t *Task, c Call) (errno syscall.Errno, part int64, ok bool) {
+	s := G
+	if s == nil || t == nil || t.ioFault == nil || t.quiet > 0 {
+		return 0, 0, false
+	}
+	f := t.ioFault
+	t.ioFault = nil
+	opts := ioErrnos[c.Kind]
+	if len(opts) == 0 {
+		s.Counters["fault.ioerr-not-applicable"]++
+		return 0, 0, false
+	}
+	a := f.Arg
+	if a < 0 {
+		a = -a
+	}
+	errno = opts[int(a%int64(len(opts)))]
+	t.injected = true
+	s.IOFaultEvents++
+	s.Counters["fault.ioerr"]++
+	s.Counters["fault.ioerr-"+c.Kind+"-"+ErrClass(errno)]++
+	return errno, f.Arg2, true
 }
 
 // Record logs an executed call.
@@ -415,7 +478,8 @@ func Record(t *Task, c Call, mut bool, ino uint64, n int, err error) {
 	if s == nil || t == nil || t.quiet > 0 {
 		return
 	}
-	ev := Event{Time: s.Now, Task: t.ID, Op: t.OpIndex, Kind: c.Kind, Path: c.Path, Path2: c.Path2, Ino: ino, N: n, Err: ErrClass(err), Mut: mut}
+	ev := Event{Time: s.Now, Task: t.ID, Op: t.OpIndex, Kind: c.Kind, Path: c.Path, Path2: c.Path2, Ino: ino, N: n, Err: ErrClass(err), Mut: mut, Inj: t.injected}
+	t.injected = false
 	if mut {
 		ev.Caller = callerIn(s.CallerPkg)
 	}
